@@ -2,6 +2,7 @@
 from .common import *
 from .machine import *
 from .special import report_known
+from .c11 import field_run
 
 OPS = ["add", "sub", "mul", "div", "add_f", "mul_f", "neg", "abs", "signum", "inv", "sqrt", "exp", "sin", "ln",
        "powi", "powf", "mul_add", "abs_sub", "sum", "product", "is_zero", "is_one", "is_positive", "is_negative", "re"]
@@ -53,4 +54,25 @@ def run(tier):
             chk.violation("%s: %s %s" % (v.get("what"), v.get("key"), v.get("op")), {"kind": "transparent-case", **v})
         if rep["types"] < 45 or len(rep["ops"]) < 40 or rep["plain_comparisons"] < 20000:
             raise ToolError("vacuity: transparency sweep covered %d types, %d operations" % (rep["types"], len(rep["ops"])))
+    # min / max / clamp / copysign / abs / sign predicates of the four field types take the branch of the float evaluation,
+    # also at +0.0 / -0.0 real parts and ties (the field harness of C11, judged here on the decision methods)
+    fr = field_run("field_c06")
+    chk.add_tlc(fr, "selection methods return an operand as a whole (Field.tla)")
+    if fr.violated:
+        chk.model_violation(fr, "Field")
+    else:
+        frep = run_harness("hcore", ["field", fr.out_path, "--seed", str(seed()), "--samples", "4" if tier == "quick" else "200"], timeout=3000)
+        decisions = ("|max", "|min", "|clamp", "|copysign", "|abs", "|modulus", "|norm1", "|is_sign_positive", "|is_sign_negative", "|is_finite")
+        n = 0
+        for k, cnt in frep["per_case"].items():
+            if any(d in k for d in decisions):
+                chk.distinct.add("field" + k[k.index("|"):] if False else "field|" + k)
+                n += cnt
+        chk.cov["evaluations"] += n
+        chk.cov["field_decision_checks"] = n
+        for v in frep["violations"]:
+            if any(d in str(v.get("case", "")) for d in decisions):
+                chk.violation("decision method of a field type: %s" % json.dumps(v)[:500], {"kind": "field-case", **v})
+        if n < 200:
+            raise ToolError("vacuity: %d decision-method checks" % n)
     return chk.finish(extra={"exhaustive": True})
